@@ -29,11 +29,11 @@ go test -vet=off -count=1 -timeout 25m -skip '^TestSeedDemo|^TestZZSeed|^TestSee
 grep -v '^ok\|no test files' "$out/suite.log" | head -20 | tee -a "$log"
 echo "suite exit=$rc" | tee -a "$log"
 echo "== demo with change (must fail)" | tee -a "$log"
-go test -vet=off -count=1 -timeout 10m ./$demodir/ > "$out/demo_with.log" 2>&1; rcw=$?
+go test -vet=off -count=1 -timeout 10m -run "TestSeedDemo|TestZZSeed|TestSeed" ./$demodir/ > "$out/demo_with.log" 2>&1; rcw=$?
 echo "demo-with-change exit=$rcw" | tee -a "$log"
 git apply -R "$out/patch.diff"
 echo "== demo without change (must pass)" | tee -a "$log"
-go test -vet=off -count=1 -timeout 10m ./$demodir/ > "$out/demo_without.log" 2>&1; rco=$?
+go test -vet=off -count=1 -timeout 10m -run "TestSeedDemo|TestZZSeed|TestSeed" ./$demodir/ > "$out/demo_without.log" 2>&1; rco=$?
 echo "demo-without-change exit=$rco" | tee -a "$log"
 git apply "$out/patch.diff"
 if [ $rc -ne 0 ] || [ $rcw -eq 0 ] || [ $rco -ne 0 ]; then echo "SEED-INVALID" | tee -a "$log"; fi
